@@ -207,6 +207,28 @@ CORPUS = [
 ]
 
 
+def gen_default_clash(rng, how):
+    """a valid call in which a keyword names a positional-only parameter left to its default (goes to **kw)"""
+    for _ in range(200):
+        sig = gen_sig(rng, how)
+        params = sig[1:] if how in ("method", "classmethod") else sig
+        po = [i for i, p in enumerate(params) if p[1] == "posonly" and p[2] is not None]
+        if po and any(p[1] == "varkw" for p in sig):
+            break
+    else:
+        return None
+    first = rng.choice(po)
+    pos = list(range(1, first + 1))
+    kw = [[params[first][0], 50]]
+    n = 60
+    for p in params[first + 1:]:
+        if (p[1] == "kwonly" and (p[2] is None or rng.random() < 0.5)) or (p[1] == "normal" and rng.random() < 0.3):
+            n += 1
+            kw.append([p[0], n])
+    rng.shuffle(kw)
+    return sig, pos, kw
+
+
 def gen_calls(rng, tier):
     n = 1100 if tier == "quick" else 14000
     cases = []
@@ -214,6 +236,10 @@ def gen_calls(rng, tier):
         how = rng.choice(["function"] * 7 + ["method", "method", "classmethod", "staticmethod"])
         sig = gen_sig(rng, how)
         pos, kw = gen_call(rng, sig, how in ("method", "classmethod"))
+        if rng.random() < 0.02:
+            g = gen_default_clash(rng, how)
+            if g is not None:
+                sig, pos, kw = g
         cases.append({"sig": sig, "how": how, "pos": pos, "kw": kw, "opts": gen_opts(rng, sig),
                       "body": gen_body(rng, sig, pos),
                       "nested": rng.choice([None, None, None, 0, 1, 2])})
